@@ -1,46 +1,191 @@
 package main
 
 import (
-	"os"
+	"bytes"
+	"go/ast"
+	"go/parser"
+	"go/printer"
+	"go/token"
 	"path/filepath"
 	"reflect"
-	"regexp"
 	"runtime"
-	"strings"
 
 	"qchen.fun/fatchoy/x/uuid"
 	. "verifharness/common"
 )
 
 // The etcd, mongo and mysql adapters need live servers, so their Incr cannot be run here; the
-// model's guard is tied to them textually: each adapter must contain the guard in exactly the
-// modelled form (same test, same error, lastId updated with the accepted value).  RedisStore's
+// model's guard is tied to them through the syntax tree of the source: the Incr method of each
+// adapter must contain
+//
+//	if recv.lastId != 0 && recv.lastId >= E { return 0, ErrIDOutOfRange }
+//	recv.lastId = E
+//
+// for one expression E (the raw counter).  Harmless rewrites are accepted (parentheses,
+// `0 != recv.lastId`, `E <= recv.lastId`, another receiver name, other statements around);
+// a changed comparison operator, operand, error or assignment is reported.  RedisStore's
 // guard is in addition executed against the fake redis.
-var guardForm = regexp.MustCompile(`if s\.lastId != 0 && s\.lastId >= ([\w.]+) \{ return 0, ErrIDOutOfRange \} s\.lastId = ([\w.]+) `)
+
+func unparen(e ast.Expr) ast.Expr {
+	for {
+		p, ok := e.(*ast.ParenExpr)
+		if !ok {
+			return e
+		}
+		e = p.X
+	}
+}
+
+func exprString(fset *token.FileSet, e ast.Expr) string {
+	var b bytes.Buffer
+	printer.Fprint(&b, fset, unparen(e))
+	return b.String()
+}
+
+func isLastID(e ast.Expr, recv string) bool {
+	s, ok := unparen(e).(*ast.SelectorExpr)
+	if !ok || s.Sel.Name != "lastId" {
+		return false
+	}
+	id, ok := unparen(s.X).(*ast.Ident)
+	return ok && id.Name == recv
+}
+
+func isZero(e ast.Expr) bool {
+	l, ok := unparen(e).(*ast.BasicLit)
+	return ok && l.Kind == token.INT && l.Value == "0"
+}
+
+// guardOperand returns E if cond is `recv.lastId != 0 && recv.lastId >= E` (up to the harmless
+// variants), else nil.
+func guardOperand(cond ast.Expr, recv string) ast.Expr {
+	and, ok := unparen(cond).(*ast.BinaryExpr)
+	if !ok || and.Op != token.LAND {
+		return nil
+	}
+	ne, ok := unparen(and.X).(*ast.BinaryExpr)
+	if !ok || ne.Op != token.NEQ ||
+		!(isLastID(ne.X, recv) && isZero(ne.Y) || isZero(ne.X) && isLastID(ne.Y, recv)) {
+		return nil
+	}
+	ge, ok := unparen(and.Y).(*ast.BinaryExpr)
+	if !ok {
+		return nil
+	}
+	switch {
+	case ge.Op == token.GEQ && isLastID(ge.X, recv):
+		return ge.Y
+	case ge.Op == token.LEQ && isLastID(ge.Y, recv):
+		return ge.X
+	}
+	return nil
+}
+
+func returnsOutOfRange(body *ast.BlockStmt) bool {
+	if len(body.List) != 1 {
+		return false
+	}
+	r, ok := body.List[0].(*ast.ReturnStmt)
+	if !ok || len(r.Results) != 2 || !isZero(r.Results[0]) {
+		return false
+	}
+	id, ok := unparen(r.Results[1]).(*ast.Ident)
+	return ok && id.Name == "ErrIDOutOfRange"
+}
+
+// guardInSource reports whether the Incr method in src has the modelled guard.
+func guardInSource(filename string, src interface{}) (bool, string) {
+	fset := token.NewFileSet()
+	f, err := parser.ParseFile(fset, filename, src, 0)
+	if err != nil {
+		return false, "cannot parse: " + err.Error()
+	}
+	for _, d := range f.Decls {
+		fd, ok := d.(*ast.FuncDecl)
+		if !ok || fd.Name.Name != "Incr" || fd.Recv == nil || len(fd.Recv.List) != 1 || len(fd.Recv.List[0].Names) != 1 || fd.Body == nil {
+			continue
+		}
+		recv := fd.Recv.List[0].Names[0].Name
+		for i, st := range fd.Body.List {
+			ifs, ok := st.(*ast.IfStmt)
+			if !ok || ifs.Init != nil || ifs.Else != nil {
+				continue
+			}
+			e := guardOperand(ifs.Cond, recv)
+			if e == nil {
+				continue
+			}
+			if !returnsOutOfRange(ifs.Body) {
+				return false, "the guard does not return 0, ErrIDOutOfRange"
+			}
+			want := exprString(fset, e)
+			for _, later := range fd.Body.List[i+1:] {
+				as, ok := later.(*ast.AssignStmt)
+				if ok && as.Tok == token.ASSIGN && len(as.Lhs) == 1 && len(as.Rhs) == 1 && isLastID(as.Lhs[0], recv) {
+					if exprString(fset, as.Rhs[0]) == want {
+						return true, ""
+					}
+					return false, "lastId is updated with " + exprString(fset, as.Rhs[0]) + ", the guard compares with " + want
+				}
+			}
+			return false, "lastId is not updated after the guard"
+		}
+		return false, "Incr has no statement of the form `if s.lastId != 0 && s.lastId >= cnt {...}`"
+	}
+	return false, "no Incr method"
+}
 
 func checkGuardText(out *Out) {
 	fn := runtime.FuncForPC(reflect.ValueOf(uuid.NewSeqIDGen).Pointer())
 	if fn == nil {
-		out.Note("guard text: cannot locate the x/uuid sources")
+		out.Note("guard form: cannot locate the x/uuid sources")
 		return
 	}
 	file, _ := fn.FileLine(fn.Entry())
 	dir := filepath.Dir(file)
 	for _, name := range []string{"store_redis.go", "store_etcd.go", "store_mongo.go", "store_mysql.go"} {
-		src, err := os.ReadFile(filepath.Join(dir, name))
-		if err != nil {
-			out.Violation("C08/guard-text/"+name, "store adapter source not readable: "+err.Error(), List(List(List(), List()), List(List(), List())))
-			continue
-		}
-		norm := strings.Join(strings.Fields(string(src)), " ") + " "
-		m := guardForm.FindStringSubmatch(norm)
+		ok, why := guardInSource(filepath.Join(dir, name), nil)
 		out.GoChecked++
-		if m == nil || m[1] != m[2] {
+		if !ok {
 			out.Violation("C08/guard-text/"+name,
-				"the counter guard of "+name+" no longer has the modelled form `if s.lastId != 0 && s.lastId >= cnt { return 0, ErrIDOutOfRange }; s.lastId = cnt`",
+				"the counter guard of "+name+" no longer has the modelled form `if s.lastId != 0 && s.lastId >= cnt { return 0, ErrIDOutOfRange }; s.lastId = cnt`: "+why,
 				List(List(List(), List()), List(List(), List())))
 		} else {
-			out.Count("guard-text-ok:" + name)
+			out.Count("guard-form-ok:" + name)
+		}
+	}
+	guardSelfTest(out)
+}
+
+// guardSelfTest: the matcher accepts harmless rewrites and rejects changed guards.
+func guardSelfTest(out *Out) {
+	const pre = "package p\nfunc (s *S) Incr() (int64, error) {\n\tcnt, err := s.do()\n\tif err != nil { return 0, err }\n"
+	const post = "\n\treturn cnt, nil\n}\n"
+	accept := []string{
+		"if s.lastId != 0 && s.lastId >= cnt { return 0, ErrIDOutOfRange }\n s.lastId = cnt",
+		"if (0 != s.lastId) && (cnt <= s.lastId) {\n return 0, ErrIDOutOfRange\n }\n log.Print(1)\n s.lastId = (cnt)",
+		"if s.lastId != 0 &&\n s.lastId >= ctr.Count { return 0, ErrIDOutOfRange }\n s.lastId = ctr.Count",
+	}
+	reject := []string{
+		"if s.lastId != 0 && s.lastId > cnt { return 0, ErrIDOutOfRange }\n s.lastId = cnt",
+		"if s.lastId != 0 && s.lastId <= cnt { return 0, ErrIDOutOfRange }\n s.lastId = cnt",
+		"if s.lastId != 0 || s.lastId >= cnt { return 0, ErrIDOutOfRange }\n s.lastId = cnt",
+		"if s.lastId != 1 && s.lastId >= cnt { return 0, ErrIDOutOfRange }\n s.lastId = cnt",
+		"if s.lastId != 0 && s.lastId >= cnt-1 { return 0, ErrIDOutOfRange }\n s.lastId = cnt",
+		"if s.lastId != 0 && s.lastId >= cnt { return 0, nil }\n s.lastId = cnt",
+		"if s.lastId != 0 && s.lastId >= cnt { return cnt, ErrIDOutOfRange }\n s.lastId = cnt",
+		"if s.lastId != 0 && s.lastId >= cnt { return 0, ErrIDOutOfRange }",
+		"if s.lastId != 0 && s.lastId >= cnt { log.Print(1) }\n s.lastId = cnt",
+		"s.lastId = cnt",
+	}
+	for _, g := range accept {
+		if ok, why := guardInSource("accept.go", pre+g+post); !ok {
+			out.Violation("C08/guard-text/selftest", "guard matcher rejects a harmless variant ("+why+"): "+g, List(List(List(), List()), List(List(), List())))
+		}
+	}
+	for _, g := range reject {
+		if ok, _ := guardInSource("reject.go", pre+g+post); ok {
+			out.Violation("C08/guard-text/selftest", "guard matcher accepts a changed guard: "+g, List(List(List(), List()), List(List(), List())))
 		}
 	}
 }
